@@ -134,10 +134,10 @@ def StrToInt(input_string):
     :return BV:                     bitvector of the integer resulting from the string or -1 in
                                     bitvector if the string cannot be transformed into an integer
     """
-    try:
-        return BVV(int(input_string.value), 64)
-    except ValueError:
-        return BVV(-1, 64)
+    s = input_string.value
+    if s.isascii() and s.isdigit():
+        return BVV(int(s), 64)
+    return BVV(-1, 64)
 
 
 def StrIsDigit(input_string):
